@@ -56,39 +56,6 @@ Theorem C03_reset_keeps_shape : forall hash t k v t' b,
 Proof. intros. split; [eapply treset_hash_shape|eapply treset_array_size]; eassumption. Qed.
 Print Assumptions C03_reset_keeps_shape.
 
-(* --- the property is false of the code as it stands: five witnesses --- *)
-Theorem C03_traversal_clear_refuted :
-  exists t t' b, run_ops (ints 8) = Ok t /\ mget hid t (VInt 8) = Ok (VInt 108) /\
-    treset hid t (VInt 8) VNil = Ok (t', b) /\ mnext hid t' (VInt 8) = Ok (VNil, VNil, false).
-Proof. exact array_clear_refuted. Qed.
-Print Assumptions C03_traversal_clear_refuted.
-
-Theorem C03_set_existing_does_not_move_refuted :
-  exists t t', run_ops strs4 = Ok t /\ mget hid t (VStr [97%N]) = Ok (VInt 1) /\
-    tset hid t (VStr [97%N]) (VInt 101) = Ok t' /\ hshape (hpart t') <> hshape (hpart t).
-Proof. exact set_existing_moves_refuted. Qed.
-Print Assumptions C03_set_existing_does_not_move_refuted.
-
-Theorem C03_key_equality_refuted :
-  exists t, run hclo empty_table (OSet (VClo 1 0) (VInt 1) :: negs 12) = Ok t /\
-    equals (VClo 1 0) (VClo 2 0) = true /\
-    mget hclo t (VClo 1 0) = Ok (VInt 1) /\ mget hclo t (VClo 2 0) = Ok VNil.
-Proof. exact closure_key_refuted. Qed.
-Print Assumptions C03_key_equality_refuted.
-
-Theorem C03_traversal_terminates_refuted :
-  exists t, run_ops [OSet (VInt 1) (VInt 10); OSet (VInt 2) (VInt 20); OSet (VInt 0) (VInt 5)] = Ok t /\
-    mnext hid t (VInt 2) = Ok (VInt 0, VInt 5, true) /\ mnext hid t (VInt 0) = Ok (VInt 1, VInt 10, true).
-Proof. exact next_zero_refuted. Qed.
-Print Assumptions C03_traversal_terminates_refuted.
-
-Theorem C03_newindex_only_if_absent_refuted :
-  exists t t', run_ops [OSet (VInt 6) (VInt 1)] = Ok t /\
-    mget hid t (VFlt 4618441417868443648) = Ok (VInt 1) /\
-    treset hid t (VFlt 4618441417868443648) (VInt 3) = Ok (t', false).
-Proof. exact reset_float_refuted. Qed.
-Print Assumptions C03_newindex_only_if_absent_refuted.
-
 (* non-vacuity of the model: all three insertion cases, a migration, a cleanup, every key retrievable *)
 Theorem C03_demo_history :
   exists t, run hmod16 empty_table demo = Ok t /\
